@@ -1,5 +1,5 @@
-\* exhaustive + emission (thorough): averaged cores of height 6, minimum sizes 1..4 half units
-CONSTANTS HC = 6  Mins = {1, 2, 3, 4}  Families = {"avg"}
+\* exhaustive + emission (quick): three meshes averaged, the third one an outlier that average1DWithinTolerance must drop; height 10
+CONSTANTS HC = 10  Mins = {3}  Families = {"outlier"}
 INIT Init
 NEXT Next
 INVARIANT AtMostTwoRows
